@@ -528,12 +528,39 @@ def _attr_emptiness(attr, f, par, call):
                            "reaches this call with an empty collection")
 
 
+# iterators of the package's own containers that yield nothing for accepted parameters (one line of reason each)
+MAYBE_EMPTY_CALLS = {
+    "sources": "an EventMap without sources is accepted by event.Monitor and csr.EventMonitor",
+    "resources": "a MemoryMap without resources is accepted (e.g. a decoder before anything is added)",
+    "windows": "a MemoryMap without windows is accepted",
+    "all_resources": "a MemoryMap without resources is accepted",
+    "window_patterns": "a MemoryMap without windows is accepted",
+}
+
+
 def partial_reducers(rep, idx):
     """reduce(f, seq) without initial value, max()/min() of one iterable without default=, next(it) without default:
     they raise TypeError / ValueError / StopIteration on an empty sequence -- an internal error, not a refusal."""
     n_sites = 0
     for f in idx.all_functions():
         par = None
+        # a, b = zip(*seq): transposing an empty sequence gives nothing to unpack
+        for n in ast.walk(f.node):
+            if isinstance(n, ast.Assign) and len(n.targets) == 1 and isinstance(n.targets[0], (ast.Tuple, ast.List)) and n.targets[0].elts and \
+                    not any(isinstance(e, ast.Starred) for e in n.targets[0].elts) and isinstance(n.value, ast.Call) and \
+                    isinstance(n.value.func, ast.Name) and n.value.func.id == "zip" and len(n.value.args) == 1 and isinstance(n.value.args[0], ast.Starred):
+                src = n.value.args[0].value
+                n_sites += 1
+                what = f"{ast.unparse(n)[:70]}: the transposed sequence has an element whenever this is reached"
+                fails = f"ValueError: not enough values to unpack (expected {len(n.targets[0].elts)}, got 0)"
+                callee = src.func.attr if isinstance(src, ast.Call) and isinstance(src.func, ast.Attribute) else None
+                if isinstance(src, (ast.List, ast.Tuple)) and src.elts:
+                    rep.ok("C19.8", f.site, what, "literal with at least one element")
+                elif callee in MAYBE_EMPTY_CALLS and not src.args:
+                    rep.bad("C19.8", f.site, what, f"{MAYBE_EMPTY_CALLS[callee]}; zip(*[]) yields nothing and the unpacking fails with {fails}",
+                            line=n.lineno)
+                else:
+                    rep.unk("C19.8", f.site, what, f"the argument is not a collection the analysis can size; on an empty sequence the unpacking fails with {fails}")
         for n in ast.walk(f.node):
             if not (isinstance(n, ast.Call) and isinstance(n.func, (ast.Name, ast.Attribute))):
                 continue
